@@ -577,35 +577,43 @@ func (s *Store) gcIndex(ctx context.Context) error {
 		tagged.Add(desc.Digest)
 	}
 
-	// index referrer manifests
-	for ref, desc := range refMap {
-		if ref != desc.Digest.String() || tagged.Contains(desc.Digest) {
-			continue
-		}
-		// check if the referrers manifest can traverse to the existing graph
-		subject := &desc
-		for {
-			var err error
-			subject, err = manifestutil.Subject(ctx, s.storage, *subject)
-			if err != nil {
-				if errors.Is(err, errdef.ErrNotFound) {
-					// the chain ends at a subject that is not in the store
+	// index referrer manifests. A referrers manifest may become reachable only
+	// through another referrers manifest indexed later (e.g. its subject is a
+	// child of that manifest), so repeat until no more manifests are added.
+	kept := set.New[digest.Digest]()
+	for added := true; added; {
+		added = false
+		for ref, desc := range refMap {
+			if ref != desc.Digest.String() || tagged.Contains(desc.Digest) || kept.Contains(desc.Digest) {
+				continue
+			}
+			// check if the referrers manifest can traverse to the existing graph
+			subject := &desc
+			for {
+				var err error
+				subject, err = manifestutil.Subject(ctx, s.storage, *subject)
+				if err != nil {
+					if errors.Is(err, errdef.ErrNotFound) {
+						// the chain ends at a subject that is not in the store
+						break
+					}
+					return err
+				}
+				if subject == nil {
 					break
 				}
-				return err
-			}
-			if subject == nil {
-				break
-			}
-			if graph.Exists(*subject) {
-				if err := tagResolver.Tag(ctx, deleteAnnotationRefName(desc), desc.Digest.String()); err != nil {
-					return err
+				if graph.Exists(*subject) {
+					if err := tagResolver.Tag(ctx, deleteAnnotationRefName(desc), desc.Digest.String()); err != nil {
+						return err
+					}
+					plain := descriptor.Plain(desc)
+					if err := graph.IndexAll(ctx, s.storage, plain); err != nil {
+						return err
+					}
+					kept.Add(desc.Digest)
+					added = true
+					break
 				}
-				plain := descriptor.Plain(desc)
-				if err := graph.IndexAll(ctx, s.storage, plain); err != nil {
-					return err
-				}
-				break
 			}
 		}
 	}
